@@ -26,7 +26,9 @@ ASSUMPTIONS = ['the mirror uses pyx12.map_if nodes for positions and segment/qua
 
 MAPS = [('837.4010.X098.A1.xml', ['2000A', '2000B', '2300']), ('837.5010.X222.A1.xml', ['2000A', '2300']), ('837.4010.X096.A1.xml', ['2000A', '2300']),
         ('834.4010.X095.A1.xml', ['2000']), ('835.4010.X091.A1.xml', ['2000', '2100']), ('271.4010.X092.A1.xml', ['2000A', '2000B']),
-        ('278.4010.X094.27.A1.xml', ['2000A']), ('834.5010.X220.A1.xml', ['2000']), ('835.5010.X221.A1.xml', ['2000'])]
+        ('278.4010.X094.27.A1.xml', ['2000A']), ('834.5010.X220.A1.xml', ['2000']), ('835.5010.X221.A1.xml', ['2000']),
+        # the one shipped map whose loop ids (AK2, AK3) are spelled like segment ids
+        ('997.4010.xml', ['ST_LOOP', 'AK2'])]
 
 
 # ------------------------------------------------------------------ mirror
